@@ -59,6 +59,14 @@ def _ri(r, lo, hi):
 
 
 def cases(tier, seed):
+    # the rare histories first, so that they are evaluated even if a loaded machine truncates the run
+    gen = list(_cases(tier, seed))
+    special = [c for c in gen if c["mode"] != "single" or len(c["kinds"]) >= 9]
+    rest = [c for c in gen if not (c["mode"] != "single" or len(c["kinds"]) >= 9)]
+    return special + rest
+
+
+def _cases(tier, seed):
     r = rng_for(seed, "c30-cases")
     extra = BOUNDS["extra_random"][tier]
     axes = dict(type=TYPES, nd=[0, 1, 2, 3], k0=list(range(len(AXIS_KINDS))), kstep=[1, 5, 7], dtype=DTYPES, md=MD_KINDS,
@@ -235,11 +243,27 @@ def _tag(case):
     return " ".join(f"{k}={case[k]}" for k in case if k != "s")
 
 
+def _sweep_stale(max_age_s=900):
+    """Remove stores left behind by workers that were killed mid-case (budget truncation); disk is limited."""
+    import time
+
+    root = tempfile.gettempdir()
+    try:
+        for name in os.listdir(root):
+            if name.startswith("c30-"):
+                path = os.path.join(root, name)
+                if time.time() - os.path.getmtime(path) > max_age_s:
+                    shutil.rmtree(path, ignore_errors=True)
+    except OSError:
+        pass
+
+
 def run_case(case):
     import abtem
     from abtem.array import ComputableList
 
     r = rng_for(0, "c30", case["s"])
+    _sweep_stale()
     tmp = tempfile.mkdtemp(prefix="c30-")
     try:
         url = os.path.join(tmp, "store.zip" if case["store"] == "zip" else "store.zarr")
